@@ -61,6 +61,19 @@ def gen_cases(ctx):
         S = r.choice([0.0, r.uniform(0, 42), r.uniform(0, 42), r.uniform(30, 37)])
         P = r.choice([1e5, math.exp(r.uniform(math.log(1e5), math.log(1.1e8))), r.uniform(1e5, 1.1e8)])
         cases.append((T, S, P))
+        # a fifth of the random states are followed by states that share one or two of (T, S, P) with the call before (a
+        # profile at constant salinity, an isothermal tank, a pressure sweep): anything remembered between calls under an
+        # incomplete key answers these with the previous sample's values
+        if r.random() < 0.2:
+            for _k in range(r.randint(1, 3)):
+                keep = r.choice(['T', 'S', 'P', 'TS', 'TP', 'SP'])
+                if 'T' not in keep:
+                    T = r.uniform(271., 313.15) if T < 313.15 else r.uniform(313.15, 373.)
+                if 'S' not in keep:
+                    S = r.uniform(0, 42)
+                if 'P' not in keep:
+                    P = math.exp(r.uniform(math.log(1e5), math.log(1.1e8)))
+                cases.append((T, S, P))
     return cases
 
 
